@@ -913,7 +913,11 @@ func proxyFamily(c *core.Ctx) {
 		}
 		v := cres[j]
 		if len(v) != 3 || !b2s(v[0]) {
-			propOK = false
+			// a failure with a decidable shape goes to the known-findings matching of the core (VIOLATION unless that exact
+			// shape is recorded); only unclassified failures break the obligation itself
+			if !(tb[i].renderFlag == "2" && p.err == "" && p.status == b.status) {
+				propOK = false
+			}
 			if c.NFails(famProp) < 6 {
 				in := cases[i].describe()
 				in["received_status"] = strconv.Itoa(p.status)
